@@ -27,19 +27,19 @@ type Closure struct {
 }
 
 type Val struct {
-	T     string
-	Typ   types.Type
-	Sort  string // when Typ == nil
-	Addr  *Addr
-	Clo   *Closure
-	Tup   []Val
-	Elems []Val // static contents of a slice built from a local array
-	Static *Val  // for an element address: the statically known content
-	Pooled bool  // value obtained from sync.Pool.Get
-	Emb   bool   // interior reference of an inline struct (never nil)
-	Iter  string // state component holding the visited set of a map iterator
-	Off   string // element offset of a sub-slice s[lo:] (translator-level; such values must not escape)
-	Fresh bool  // reference allocated during this execution
+	T      string
+	Typ    types.Type
+	Sort   string // when Typ == nil
+	Addr   *Addr
+	Clo    *Closure
+	Tup    []Val
+	Elems  []Val  // static contents of a slice built from a local array
+	Static *Val   // for an element address: the statically known content
+	Pooled bool   // value obtained from sync.Pool.Get
+	Emb    bool   // interior reference of an inline struct (never nil)
+	Iter   string // state component holding the visited set of a map iterator
+	Off    string // element offset of a sub-slice s[lo:] (translator-level; such values must not escape)
+	Fresh  bool   // reference allocated during this execution
 }
 
 type State struct {
@@ -93,25 +93,26 @@ type deferRec struct {
 }
 
 type Frame struct {
-	fn       *ssa.Function
-	id       int
-	vals     map[ssa.Value]Val
-	spec     *FuncSpec
-	parent   *Frame
-	depth    int
-	track    bool // implicit runtime panics are obligations/exits
-	returns  []exit
-	panics   []exit
-	defers   []deferRec
-	recKey   string
-	entry    *State
-	env      map[string]Val // contract names
-	arrays   map[ssa.Value][]Val
-	top      bool
-	loops    map[*ssa.BasicBlock]*loopInfo
-	loopLets map[*ssa.BasicBlock]map[string]Val
-	inDefer  bool
-	panicVal string
+	fn        *ssa.Function
+	id        int
+	vals      map[ssa.Value]Val
+	spec      *FuncSpec
+	parent    *Frame
+	depth     int
+	track     bool // implicit runtime panics are obligations/exits
+	hooksOnly bool // ("panics callees") only calls of nil hook fields and explicit panics are tracked; nil / index / division on inputs are assumed away
+	returns   []exit
+	panics    []exit
+	defers    []deferRec
+	recKey    string
+	entry     *State
+	env       map[string]Val // contract names
+	arrays    map[ssa.Value][]Val
+	top       bool
+	loops     map[*ssa.BasicBlock]*loopInfo
+	loopLets  map[*ssa.BasicBlock]map[string]Val
+	inDefer   bool
+	panicVal  string
 }
 
 type loopInfo struct {
@@ -121,27 +122,31 @@ type loopInfo struct {
 }
 
 type Engine struct {
-	prog     *ssa.Program
-	db       *SpecDB
-	decls    []string
-	declared map[string]bool
-	script   []string
-	obls     []*Obl
-	n        int
-	compSort map[string]string
-	strs     map[string]string
-	typeTags map[string]int
-	tagList  []string
-	curFn    string
-	curProps []string
-	degraded []string
-	abstr    map[string]int
-	inlined  map[string]bool
-	assumedC map[string]bool
-	maxDepth int
-	topSpec  *FuncSpec
-	notes    []string
-	conc     bool
+	prog            *ssa.Program
+	db              *SpecDB
+	decls           []string
+	declared        map[string]bool
+	script          []string
+	obls            []*Obl
+	n               int
+	compSort        map[string]string
+	strs            map[string]string
+	typeTags        map[string]int
+	tagList         []string
+	curFn           string
+	curProps        []string
+	degraded        []string
+	abstr           map[string]int
+	loopGhostWriter bool            // the loop being cut contains a call whose contract writes ghost state
+	initialPkgs     map[string]bool // import paths of the packages loaded for verification
+	extPolicy       string          // "" or "preserve-ghosts": how calls leaving the verified code without a contract are treated
+	extCalls        map[string]int  // such calls, for the evidence
+	inlined         map[string]bool
+	assumedC        map[string]bool
+	maxDepth        int
+	topSpec         *FuncSpec
+	notes           []string
+	conc            bool
 
 	objInvs       map[string]bool
 	putType       map[string]*boxed
@@ -164,7 +169,7 @@ type Engine struct {
 }
 
 func newEngine(prog *ssa.Program, db *SpecDB) *Engine {
-	return &Engine{prog: prog, db: db, maxDepth: 12}
+	return &Engine{prog: prog, db: db, maxDepth: 12, extCalls: map[string]int{}}
 }
 
 func (x *Engine) reset(fn string) {
@@ -563,6 +568,9 @@ func (x *Engine) get(st *State, key string) string {
 	}
 	if v, ok := st.h[key]; ok {
 		return v
+	}
+	if strings.HasPrefix(key, "$defer:") || strings.HasPrefix(key, "$rec:") {
+		return "false" // a deferred call that was never registered on this path / no recover() yet
 	}
 	return x.initName(key, st.gen)
 }
